@@ -1,7 +1,7 @@
 """C07 — loop-level theorems + correspondence of Solver.solve with a scripted step oracle."""
 from ..gen import Gen
 from ..unit import run_unit
-from .. import camp_props
+from .. import camp_props, common
 from ..units.loop import Loop
 from ..units.small import Evaluator
 
@@ -11,6 +11,7 @@ TECHNIQUE = "Coq proof (invariants by induction over arbitrary step-oracle trace
 
 def run(rep, tier, seed, scratch):
     g = Gen(seed)
+    common.facts_obligations(rep, 'C07', scratch)
     for u in (Evaluator(), Loop()):
         run_unit(rep, u, u.gen(g, tier), scratch)
     camp_props.run_C07(rep, tier, seed)
